@@ -234,6 +234,17 @@ func unquote(s string) (string, bool) {
 	return b.String(), true
 }
 
+// class returns the length of the ":name:]", ".name.]" or "=name=]" at the
+// beginning of s, or 0.
+func class(s string) int {
+	if s != "" && strings.IndexByte(".=:", s[0]) != -1 {
+		if i := strings.Index(s[1:], s[:1]+"]"); i != -1 {
+			return 1 + i + 2
+		}
+	}
+	return 0
+}
+
 func compile(patterns []string, mode Mode) (*regexp.Regexp, error) {
 	var b strings.Builder
 	if mode&Prefix != 0 {
@@ -281,27 +292,14 @@ func compile(patterns []string, mode Mode) (*regexp.Regexp, error) {
 						}
 						b.WriteString(pat[:w])
 					case '[':
-						b.WriteByte('[')
-						pat = pat[w:]
-						r, w = utf8.DecodeRuneInString(pat)
-						switch r {
-						case utf8.RuneError:
-							if w == 0 {
-								break Pattern
-							}
+						// "[:", "[." and "[=" begin a character class, a
+						// collating symbol or an equivalence class, provided
+						// that it is closed; otherwise "[" is ordinary
+						if n := class(pat[w:]); n > 0 {
+							w += n
 							b.WriteString(pat[:w])
-						case '.', '=', ':':
-							b.WriteRune(r)
-							pat = pat[w:]
-							j := strings.Index(pat, string(r)+"]")
-							if j == -1 {
-								w = 0
-								break Bracket
-							}
-							w = j + 2
-							b.WriteString(pat[:w])
-						default:
-							continue
+						} else {
+							b.WriteString(`\[`)
 						}
 					case ']':
 						b.WriteByte(']')
